@@ -97,21 +97,30 @@ func cookieBody(cc cookieCfg, hist []string, eio int, jsonp bool) vsched.Body {
 		for _, op := range hist {
 			switch op[0] {
 			case 'H':
-				pc := &PollClient{W: w, EIO: eio}
-				if jsonp {
-					pc.JSONP = "1"
+				// "H": one handshake; "HH": two handshake requests submitted together (their handlers
+				// and send goroutines interleave under the explorer)
+				var pcs []*PollClient
+				var rs []*Resp
+				for range op {
+					pc := &PollClient{W: w, EIO: eio}
+					if jsonp {
+						pc.JSONP = "1"
+					}
+					pcs = append(pcs, pc)
+					rs = append(rs, pc.Get())
 				}
-				r := pc.Get()
 				x.Settle()
-				pk, err := pc.DecodeResp(r)
-				if err != nil || len(pk) == 0 {
-					x.Fail("setup: handshake failed (%s)", id)
-					return
+				for i, pc := range pcs {
+					pk, err := pc.DecodeResp(rs[i])
+					if err != nil || len(pk) == 0 {
+						x.Fail("setup: handshake failed (%s)", id)
+						return
+					}
+					open, _ := ParseOpen(pk[0])
+					pc.Sid, _ = open["sid"].(string)
+					clients = append(clients, pc)
+					resps = append(resps, rr{"H", len(clients), rs[i]})
 				}
-				open, _ := ParseOpen(pk[0])
-				pc.Sid, _ = open["sid"].(string)
-				clients = append(clients, pc)
-				resps = append(resps, rr{"H", len(clients), r})
 			default:
 				n := int(op[1] - '1')
 				if closed[n] {
@@ -170,7 +179,17 @@ func cookieBody(cc cookieCfg, hist []string, eio int, jsonp bool) vsched.Body {
 					wantPath = "/"
 				}
 				if got.Value != sid {
-					x.Fail("cookie-value%s: cookie value %q, session id %q (%s)", cls, got.Value, sid, what)
+					// (ids are random: the message names sessions by their index so that a replay reproduces it)
+					whose := "no session of this run"
+					for ci, cl := range clients {
+						if cl.Sid == got.Value {
+							whose = fmt.Sprintf("the id of session %d", ci+1)
+						}
+					}
+					if got.Value == "" {
+						whose = "empty"
+					}
+					x.Fail("cookie-value%s: the cookie value is %s, the response belongs to session %d (%s)", cls, whose, e.sess, what)
 				}
 				if got.Name != wantName || got.Path != wantPath {
 					x.Fail("cookie-attributes%s: name/path %q %q, configured %q %q (%s)", cls, got.Name, got.Path, wantName, wantPath, what)
@@ -497,7 +516,14 @@ func init() {
 				}
 			}
 		}
+		// two handshakes submitted together: each response carries its own session's id
+		for _, cc := range cookieCfgs()[1:] {
+			cc := cc
+			n++
+			c.ExploreDev(fmt.Sprintf("two handshakes together cookie=%s", cc.name), Pick(c, 1, 2), Pick(c, 3, 5), cookieBody(cc, []string{"HH"}, 4, false))
+		}
 		c.Res.Distinct = int64(n)
+		c.Note("two polling handshakes submitted together per cookie configuration, every interleaving of the two handlers and send goroutines up to the bound: each handshake response carries Set-Cookie with the id of the session its own open packet names")
 		c.Note("one polling handshake per cookie configuration x revision x JSONP, every interleaving of the handler and the send goroutine that writes the handshake response (<=%d preemptions): Set-Cookie with the session id, initial_headers and headers exactly once on that response", Pick(c, 1, 2))
 	})
 }
